@@ -13,9 +13,10 @@ META = {
         "(XOR-linear, no back end finishes); decided instead: all tables, the byte step, one slice step for every "
         "single non-zero byte lane, whole function for short lengths at all alignments; extension to all inputs is "
         "the GF(2)-linearity argument",
-        "read/write paths that call the set/verify routines (inode.c, dirblock.c, ext_attr.c, rw_bitmaps.c, mmp.c, "
-        "closefs.c, extent.c:update_path): only the routines themselves are encoded; of the read paths only "
-        "ext2fs_extent_get is (extget_p: a failed extent block read in any retry iteration is reported)",
+        "read/write paths that call the set/verify routines: encoded are ext2fs_extent_get (extget_p), the inode scan "
+        "ext2fs_get_next_inode_full (iscan_p), write_backup_super and the primary-superblock tail of ext2fs_flush2 "
+        "(sbwrite_t); NOT encoded: ext2fs_read_inode2/ext2fs_write_inode2, dirblock.c, ext_attr.c, rw_bitmaps.c, mmp.c, "
+        "extent.c:update_path, group descriptor writes of ext2fs_flush2",
         "inode sizes other than 128/256, descriptor sizes other than 32/64/128, block sizes other than the small ones "
         "listed per harness (the code is parametric in them)",
         "big-endian hosts",
@@ -54,7 +55,10 @@ def csum_t_cfgs():
         for o in ("GD_MC", "GD_CRC16", "BBITMAP", "IBITMAP"):
             if desc == 128 and o == "IBITMAP":
                 continue
-            c.append(dict(base(2 * desc), OBJ=O[o], DESC=desc))
+            d = dict(base(2 * desc), OBJ=O[o], DESC=desc)
+            if desc == 128 and o == "BBITMAP":
+                d["_tier"] = "thorough"
+            c.append(d)
     c.append(dict(base(64), OBJ=O["GD_MC"], DESC=32, CSUM=0))
     c.append(dict(base(128), OBJ=O["BBITMAP"], DESC=64, CSUM=0))
     for o in ("XATTR", "EXTENT", "DX"):
@@ -148,8 +152,14 @@ HARNESSES = [
                "+ write_primary_superblock fallback), metadata_csum on/off"),
     dict(name="iscan_p", src="iscan_p.c", extra_src=["lib/ext2fs/blknum.c", "lib/ext2fs/extent.c"],
          funcs=["ext2fs_get_next_inode_full", "get_next_blockgroup", "get_next_blocks", "check_inode_block_sanity"],
-         configs=[{"BUF": 2}, {"BUF": 2, "UNUSED": 1}, {"BUF": 1}, {"BUF": 3}, {"BUF": 2, "IGN": 1}],
-         unwind=17, unwindset=["io_channel_read_blk64.%d:1030" % i for i in range(5)],
+         # check_inode_block_sanity's loop (a `continue` inside a while) is not bounded concretely by symex: its bound
+         # must be exact (inodes per buffer + 1), a generous one makes it walk symbolic pointers far past the buffer
+         configs=[dict(c, _unwindset=["io_channel_read_blk64.%d:1030" % i for i in range(5)] +
+                       ["check_inode_block_sanity.0:%d" % (2 * c["BUF"] + 1)])
+                  for c in ({"BUF": 2}, {"BUF": 2, "UNUSED": 1}, {"BUF": 1, "_tier": "thorough"},
+                            {"BUF": 3, "_tier": "thorough"}, {"BUF": 2, "IGN": 1, "_tier": "thorough"},
+                            {"BUF": 2, "INSANE": 1, "_tier": "thorough"})],
+         unwind=17,
          # all buffer indices are concrete: per-element SSA keeps the 2-3 KiB scan buffers out of the array theory
          #cbmc_flags=["--max-field-sensitivity-array-size", "3100"],
          backends=["default", "kissat"],
